@@ -85,6 +85,91 @@ def factory_rules(ctx, R, PR):
     if not bad:
         ctx.holds("F1", "`requires` is append-only (%d writes)" % nreq)
 
+    # ---- accumulators ------------------------------------------------------------
+    # A builder may collect the extensions it needs in a list and leave the registration to its caller.  Such a list counts as
+    # "required" where it is added to, provided (rule F7) every caller of the builder registers the whole list on every path on
+    # which it goes on to use what was built.
+    def accumulators(f):
+        """names of f that are lists of extension names handed back to / received from the caller"""
+        acc = set()
+        for r in walk_no_nested(f.node):
+            if isinstance(r, ast.Return) and r.value is not None:
+                for x in (r.value.elts if isinstance(r.value, ast.Tuple) else [r.value]):
+                    if isinstance(x, ast.Name):
+                        defs = [a for a in walk_no_nested(f.node) if isinstance(a, ast.Assign) and any(isinstance(t, ast.Name) and t.id == x.id for t in a.targets)]
+                        if defs and all(isinstance(a.value, ast.List) and not a.value.elts for a in defs):
+                            acc.add(x.id)
+        own = f.params[1:] if f.cls is not None and "staticmethod" not in f.decorators else f.params
+        for p_ in own:
+            # a parameter that is only ever appended to: the caller's accumulator
+            uses = [n for n in walk_no_nested(f.node) if isinstance(n, ast.Name) and n.id == p_]
+            adds = [n for n in uses if (isinstance(n._parent, ast.AugAssign) and n._parent.target is n) or (
+                isinstance(n._parent, ast.Attribute) and n._parent.attr in ("append", "extend") and isinstance(n._parent._parent, ast.Call))]
+            if uses and len(adds) == len(uses):
+                acc.add(p_)
+        return acc
+
+    def added_elements(f, acc):
+        """(node, element expression) for every single element added to an accumulator of f"""
+        out = []
+        for n in walk_no_nested(f.node):
+            if isinstance(n, ast.Call) and isinstance(n.func, ast.Attribute) and n.func.attr == "append" and isinstance(n.func.value, ast.Name) \
+                    and n.func.value.id in acc and n.args:
+                out.append((n, n.args[0]))
+            elif isinstance(n, ast.AugAssign) and isinstance(n.target, ast.Name) and n.target.id in acc and isinstance(n.op, ast.Add) \
+                    and isinstance(n.value, ast.List):
+                for el in n.value.elts:
+                    out.append((n, el))
+        return out
+
+    # ---- F7 -----------------------------------------------------------------------
+    deferring = {}
+    for f in fmod.all_funcs():
+        if f.cls is R.cls:
+            acc = accumulators(f)
+            ret = [x.id for r in walk_no_nested(f.node) if isinstance(r, ast.Return) and r.value is not None
+                   for x in (r.value.elts if isinstance(r.value, ast.Tuple) else [r.value]) if isinstance(x, ast.Name) and x.id in acc]
+            if ret:
+                r0 = next(r for r in walk_no_nested(f.node) if isinstance(r, ast.Return) and r.value is not None)
+                idx = [i for i, x in enumerate(r0.value.elts if isinstance(r0.value, ast.Tuple) else [r0.value]) if isinstance(x, ast.Name) and x.id in acc]
+                deferring[f.name] = (f, idx[0] if idx else 0, isinstance(r0.value, ast.Tuple))
+    if deferring:
+        ctx.rule("F7", "extensions collected by a builder are all registered by its caller before the built command is used")
+        for g in fmod.all_funcs():
+            if g.cls is not R.cls:
+                continue
+            for st in walk_no_nested(g.node):
+                if not (isinstance(st, ast.Assign) and isinstance(st.value, ast.Call) and call_name(st.value) in deferring):
+                    continue
+                bf, idx, is_tuple = deferring[call_name(st.value)]
+                tg = st.targets[0]
+                if is_tuple and isinstance(tg, ast.Tuple) and idx < len(tg.elts) and isinstance(tg.elts[idx], ast.Name):
+                    var = tg.elts[idx].id
+                elif not is_tuple and isinstance(tg, ast.Name):
+                    var = tg.id
+                else:
+                    ctx.violation("F7", g, "collected-dropped", "%s does not keep the extensions collected by %s" % (g.qualname, bf.qualname), node=st,
+                                  witness="the rendered script uses an extension that is not required")
+                    continue
+                cg = ctx.cfg(g)
+                disch = []
+                for lp in walk_no_nested(g.node):
+                    if isinstance(lp, ast.For) and isinstance(lp.iter, ast.Name) and lp.iter.id == var and isinstance(lp.target, ast.Name) and any(
+                            isinstance(c_, ast.Call) and call_name(c_) == "require" and c_.args and norm(c_.args[0]) == lp.target.id
+                            for c_ in walk_no_nested(lp)):
+                        disch.extend(x for x in cg.nodes_for(lp) if x.kind == "loop")
+                # handing the list on to one's own caller is fine too (checked there)
+                passes_on = g.name in deferring and var in accumulators(g)
+                site = cg.nodes_for(st)[0]
+                if passes_on:
+                    ctx.holds("F7", "%s hands the extensions collected by %s on to its caller" % (g.qualname, bf.qualname))
+                elif disch and cg.exit not in cg.reach(site, avoid=disch, exc=False):
+                    ctx.holds("F7", "%s registers every extension collected by %s on every path to its end" % (g.qualname, bf.qualname))
+                else:
+                    ctx.violation("F7", g, "collected-not-registered", "%s can finish without registering the extensions collected by %s"
+                                  % (g.qualname, bf.qualname), node=st,
+                                  witness="the rendered script uses an extension that is not required: the parser rejects it")
+
     # ---- F2 -----------------------------------------------------------------------
     ctx.rule("F2", "command-level extensions are required on every path after the construction site")
     n2 = 0
@@ -120,6 +205,11 @@ def factory_rules(ctx, R, PR):
                     elif tgt and norm(rc.args[0]) == "%s.extension" % tgt:
                         reqs.append(rc)
             req_nodes = [x for rc in reqs for x in cfg.node_containing(rc)]
+            # ... or collected for the caller to register (rule F7)
+            for nd_, el in added_elements(f, accumulators(f)):
+                av = const_value(prog, f, el)
+                if (exts is not None and len(exts) == 1 and av == exts[0]) or (tgt and norm(el) == "%s.extension" % tgt):
+                    req_nodes.extend(cfg.node_containing(nd_) if isinstance(nd_, ast.Call) else cfg.nodes_for(nd_))
             # a conditional `if X.extension is not None: require(X.extension)` counts: the other edge needs nothing
             tests = [p for fc in cfg.facts() if tgt and norm(fact_atom(fc)[0]).startswith("%s.extension" % tgt) for p, _ in fc.pred]
             cond_ok = False
@@ -141,10 +231,7 @@ def factory_rules(ctx, R, PR):
 
     # ---- F3 -----------------------------------------------------------------------
     ctx.rule("F3", "tag -> extension derivation is table-driven and covers `extension` and `extension_values`")
-    helper = None
-    for n, f in R.m.items():
-        if "require" in n and "tag" in n:
-            helper = f
+    helper = R.derive
     if helper is None:
         # legacy constant map
         legacy = R.m.get("check_if_arg_is_extension")
@@ -203,6 +290,16 @@ def factory_rules(ctx, R, PR):
                         continue
                     got = [ev[1].v for ev in p_.events if ev[0] == "require" and isinstance(ev[1], fd.Const)]
                     unk = [ev for ev in p_.events if ev[0] == "require" and not isinstance(ev[1], fd.Const)]
+                    # a derivation that hands the extensions back (list / single name) instead of requiring them itself
+                    rv = p_.value
+                    if isinstance(rv, fd.Const) and isinstance(rv.v, (list, tuple, set)):
+                        got += [x_ for x_ in rv.v if isinstance(x_, str)]
+                    elif isinstance(rv, fd.Const) and isinstance(rv.v, str):
+                        got.append(rv.v)
+                    elif isinstance(rv, fd.Const) and isinstance(rv.v, dict):
+                        got += [x_ for x_ in rv.v.values() if isinstance(x_, str)]
+                    elif not isinstance(rv, fd.Const):
+                        unk.append(rv)
                     if x not in got and not unk:
                         missing.append((e["name"], t, x, "requires %s" % (got or "nothing")))
         ctx.need("F3", "(command, extension-bound tag) pairs evaluated", nb, 10)
@@ -270,8 +367,8 @@ def factory_rules(ctx, R, PR):
                     for s2 in blk:
                         if isinstance(s2, ast.Assign) and norm(s2.targets[0]) == norm(tagexpr):
                             names.add(norm(s2.value))
-                    return any(isinstance(s2, ast.Expr) and isinstance(s2.value, ast.Call) and call_name(s2.value) == helper.name
-                               and len(s2.value.args) == 2 and norm(s2.value.args[1]) in names for s2 in blk)
+                    return any(isinstance(hc2, ast.Call) and call_name(hc2) == helper.name and len(hc2.args) == 2 and norm(hc2.args[1]) in names
+                               for s2 in blk if isinstance(s2, (ast.Expr, ast.AugAssign, ast.Assign)) for hc2 in ast.walk(s2))
                 ok = bool(tagsets) and all(derived_on_branch(a) for a in tagsets)
             if ok:
                 ctx.holds("F4", label, "derivation precedes the unchecked argument")
